@@ -194,10 +194,11 @@ InternalAddrs(s) ==
          : i \in DOMAIN s.nodes}
 
 MPoolsOK(s) ==
+  LET ap == AllPfx(s)  na == InternalAddrs(s) IN
   /\ \A p \in Rng(s.pools) : p.ents # <<>> /\ \A i \in DOMAIN p.ents : MEntryOK(p.ents[i])
-  /\ \A t \in AllPfx(s) : \A u \in AllPfx(s) :
+  /\ \A t \in ap : \A u \in ap :
         (<<t.pi, t.ei, t.ki>> # <<u.pi, u.ei, u.ki>>) => ~POverlap(t.x, u.x)
-  /\ \A t \in AllPfx(s) : \A n \in InternalAddrs(s) : ~(n.fam = t.x.fam /\ n.a \in PfxSet(t.x))
+  /\ \A t \in ap : \A n \in na : ~(n.fam = t.x.fam /\ n.a \in PfxSet(t.x))
 
 (* validateBGPAdvPerPool, aggregation part: per written entry, the lowest   *)
 (* mask of its prefixes against the length of the family of its first one   *)
